@@ -68,12 +68,18 @@ func init() {
 		Scenarios: func(t string) []*simScenario { return replScenarios(t, true) }, Budget: replBudget,
 		MustReach: []string{"commits"}}
 	vkChecks["C02"] = func(args []string) int { return runSimCheck(c02, args) }
-	c03 := &simCheckSpec{Prop: "C03", Oracles: []string{"apply"},
-		Scenarios: func(t string) []*simScenario { return replScenarios(t, false) }, Budget: replBudget,
+	// C03 also covers restart / snapshot restore / snapshot installation: two snapshot seeds are added
+	withSnap := func(t string, eagerFSM bool, dev int) []*simScenario {
+		out := replScenarios(t, eagerFSM)
+		out = append(out, scenSnap(snapSeeds[snapSeedIndex("divergent")], dev, eagerFSM, false, 1), scenSnap(snapSeeds[snapSeedIndex("lagging")], dev, eagerFSM, true, 1))
+		return out
+	}
+	c03 := &simCheckSpec{Prop: "C03", Oracles: []string{"apply", "snapshot"},
+		Scenarios: func(t string) []*simScenario { return withSnap(t, false, 2) }, Budget: replBudget,
 		MustReach: []string{"commits"}}
 	vkChecks["C03"] = func(args []string) int { return runSimCheck(c03, args) }
 	c04 := &simCheckSpec{Prop: "C04", Oracles: []string{"match"},
-		Scenarios: func(t string) []*simScenario { return replScenarios(t, true) }, Budget: replBudget,
+		Scenarios: func(t string) []*simScenario { return withSnap(t, true, 2) }, Budget: replBudget,
 		MustReach: []string{"commits"}}
 	vkChecks["C04"] = func(args []string) int { return runSimCheck(c04, args) }
 }
